@@ -39,6 +39,7 @@ ASSUMPTIONS = [
 ]
 
 case_strategy = st.fixed_dictionaries({
+    "rep": skyimg.rep_strategy,      # how the image is stored (CD matrix, degenerate axes, BSCALE/BZERO)
     "field": fields.field_strategy,
     "aux": st.sampled_from(["forced", "forced", "files"]),
     "bkglevel": st.sampled_from([0.0, 0.0, 2.5, -7.0]),
@@ -131,8 +132,8 @@ def check_case(c):
     d = workdir("c13_")
     try:
         pos, neg = os.path.join(d, "pos.fits"), os.path.join(d, "neg.fits")
-        skyimg.write_fits(pos, img + bkgmap, hdr)
-        skyimg.write_fits(neg, -(img + bkgmap), hdr)
+        skyimg.write_fits(pos, img + bkgmap, hdr, rep=c.get("rep"))
+        skyimg.write_fits(neg, -(img + bkgmap), hdr, rep=c.get("rep"))
         fpos = fneg = None
         if c["aux"] == "files":
             rmsf = os.path.join(d, "rms.fits")
